@@ -13,7 +13,7 @@
 //!   disconnected <peer> <key>              what `Kademlia::disconnect_peer` does with the table
 //!   entry <peer> <key>                     bare `entry`
 //!   closest <key> <limit>                  `closest`
-//!   iter <distance-hex>                    everything `ClosestBucketsIter` yields
+//!   iter <distance-hex>                    bucket visit order (`ClosestBucketsIter`, immediate repeats once)
 //!   dump                                   all non-empty buckets
 
 use super::{ClosestBucketsIter, RoutingTable};
@@ -207,10 +207,13 @@ impl VerifBox for TableBox {
             }
             (["iter", d], _) => {
                 let Some(bytes) = key_bytes(d) else { return "bad-op".into() };
-                let indices: Vec<String> =
+                // visit order; an index repeated immediately is shown once (`closest` skips it)
+                let mut indices: Vec<usize> =
                     ClosestBucketsIter::new(Distance(U256::from_big_endian(&bytes)))
-                        .map(|i| i.get().to_string())
+                        .map(|i| i.get())
                         .collect();
+                indices.dedup();
+                let indices: Vec<String> = indices.iter().map(|i| i.to_string()).collect();
                 format!("[{}]", indices.join(","))
             }
             (["dump"], Some(table)) => {
